@@ -89,6 +89,36 @@ check(
     "DESIGN.md section 4 C14", engine="E4 values",
 )
 
+E1_NOTE = ("The harness owns the schedule only at boundaries user code may implement (backend API, input iterator, task "
+           "bodies); windows inside joblib's own statement sequences are reached only by the uncontrolled real-backend runs; "
+           "n_jobs 2..4 and batch sizes <= 8 in the controlled engine; watchdogs (12 s, nothing pending for the driver) decide "
+           "non-termination.")
+
+check(
+    "C01", "exploration",
+    "Generated (configuration, task list, completion schedule) cases executed against Parallel through a controlled backend "
+    "in which nothing completes until the driver says so: completion order, synchronous completions inside submit() and "
+    "threads held at gates inside the iterator / submit / retrieve / batch-size hooks while other batches complete are all "
+    "drawn and shrinkable.  Oracle: results equal the sequential loop in order, the tasks' execution log has every index "
+    "exactly once, submitted batches concatenate to range(n).  Complemented by real-backend runs (sequential, threading, "
+    "loky, multiprocessing).",
+    E1_NOTE,
+    "Hypothesis generated schedules on a harness-owned backend (schedule = generated data); reference-model oracle (sequential loop) + exactly-once execution log",
+    "DESIGN.md sections 3 (E1) and 4 C01", engine="E1 sched",
+)
+
+check(
+    "C04", "exploration",
+    "Generated fail/succeed/fail histories of 2-4 calls on one Parallel object under the controlled backend: failing tasks, "
+    "a failing input iterator, a never-completing batch with timeout, failures landing while other batches are in flight or "
+    "pre-sliced, late completions of aborted batches delivered during the next call.  Oracle: the call raises an exception "
+    "equal (type, args) to one actually raised, always returns control, and the next call returns exactly and submits only "
+    "its own tasks.",
+    E1_NOTE,
+    "Hypothesis generated fault plans x schedules on a harness-owned backend; history invariant (exception identity, termination watchdog, clean reuse)",
+    "DESIGN.md sections 3 (E1) and 4 C04", engine="E1 sched",
+)
+
 NOT_YET = "check not built yet in this session (work in progress; see DESIGN.md section 4 for the planned generator and oracle)"
 
 
@@ -106,6 +136,8 @@ def main():
             "add_only": True,
         },
         "engines": [
+            {"name": "E1 sched", "path": "vf/engines/sched.py", "serves_properties": ["C01", "C04", "C09", "C16"],
+             "kind_free_text": "controlled-schedule ParallelBackendBase subclass + driver: completion order, sync completions, gates, consumer actions are generated data"},
             {"name": "E4 values", "path": "vf/engines/values.py", "serves_properties": ["C08", "C03", "C14", "C02", "C06"],
              "kind_free_text": "typed value-spec universe, builders, canonical form, alias-aware deep equality, strategies"},
             {"name": "E5 sigs", "path": "vf/engines/sigs.py", "serves_properties": ["C07", "C02", "C06"],
